@@ -10,6 +10,7 @@ import (
 	"context"
 	"errors"
 	"os"
+	"strings"
 	"time"
 
 	"github.com/benbjohnson/litestream/internal/vx"
@@ -291,7 +292,10 @@ func VxC13Contention() {
 		}
 	}
 	// (a WAL copy that fails for its own reasons ends the call early; not the subject here)
-	vx.Assert("checkpoint-carried-out-when-the-lock-is-released-within-the-busy-timeout", e.busySeen == 0 && (err != nil || ran))
+	if err != nil && strings.Contains(err.Error(), "vx: wal copy failed") {
+		return
+	}
+	vx.Assert("checkpoint-carried-out-when-the-lock-is-released-within-the-busy-timeout", ran)
 }
 
 // VxC13Drain: the real DB.Sync (chunk loop, syncOnce, syncLocked with its gate in
